@@ -14,6 +14,9 @@ import (
 // outside the loop and stored on every iteration is shared between the iterations).  The second result
 // names the reason when the answer is no.
 func (p *Prog) Fresh(fn *Fn, e ast.Expr, at ast.Node) (bool, string) {
+	if owner := ctxFn(fn, at.Pos()); owner != nil {
+		fn = owner // a store inside a new helper reached from fn is judged in the helper
+	}
 	return p.fresh(fn, e, at, 0)
 }
 
